@@ -14,6 +14,8 @@ var plans = map[string]*propertyPlan{
 		Explain: "Every return of the reply loops is classified (quorum / Incomplete / context) by postconditions over the ghost history; the progress obligation at each blocking select (an answer is still owed) covers the zero-target case; the future is written exactly once before its single close; QuorumCallError.Is is specified completely."},
 	"C11": {ID: "C11", Level: "proof", Pkgs: rootPkg, Extra: modeScan("C11"),
 		Explain: "Correctable is verified as a monitor (invariant over level, done, the watcher slots and the closed-ness of their channels, re-established at every unlock); set's two loops carry quantified invariants (no double close, every watcher at or below the level released); the handler loop is proved to publish exactly the quorum function's level and value whenever the level rises, before it blocks again, to complete exactly once under the three stated conditions and never to lower a level."},
+	"C13": {ID: "C13", Level: "proof", Pkgs: rootPkg,
+		Explain: "The decoder is proved panic-free for an unconstrained byte slice (every type assertion, slice expression, nil dereference and interface call on its paths), relative to trusted protobuf contracts; it is proved to create the message of the method's input type for requests and output type for responses, to look the method up exactly once under the decoded name, and to reject unknown message kinds."},
 	"C19": {ID: "C19", Level: "proof", Pkgs: rootPkg,
 		Explain: "Less is proved equal to the lexicographic combination of its keys (loop invariant over a recursive spec function); each provided key's real code is inlined into four strict-weak-order lemmas; Sort/Swap/Len contracts tie sort.Sort's trusted contract to the node slice."},
 }
